@@ -159,7 +159,7 @@ class Diagram(tensor.Diagram):
                 swaps = Id(target)\
                     @ Diagram.swap(source - target, 1)\
                     @ Id(len(scan) - source - 1)
-                scan = scan[:target] + [node]\
+                scan = scan[:target] + [scan[source]]\
                     + scan[target:source] + scan[source + 1:]
             elif target > source:
                 swaps = Id(source)\
